@@ -522,10 +522,11 @@ theorem occ_named (K : Nat) (nodes : Nat → Node) (a : Nat) :
   simp only [occ, sum2]
   exact sumN_congr (fun n _ => occN_named (nodes n) a)
 
-/-- **the slots naming `a` are at most the units of their holders** -/
-theorem occ_le_holders (K N T : Nat) (st : State) (a : Nat) (h1 : HoldInv st) (h2 : HHoldInv st)
+/-- **the slots naming `a` are at most the claims of their holders** -/
+theorem occ_le_claims (K N T : Nat) (st : State) (a : Nat) (h1 : HoldInv st) (h2 : HHoldInv st)
     (hg : GregBelow N st.sh.greg) (ht : IdleBeyond T st) :
-    occ K st.sh.nodes a ≤ sumN (fun g => gU (st.sh.greg g) a) N + threadsU T st a := by
+    occ K st.sh.nodes a ≤ sumN (fun g => (gClaims a (st.sh.greg g)).length) N +
+      sumN (fun t => ((st.th t).op.claims a (st.th t).loc).length) T := by
   rw [occ_named]
   -- each named slot is claimed by a register below `N` or a thread below `T`
   have key : ∀ n i, n < K → i < slotCnt + 1 →
@@ -569,8 +570,15 @@ theorem occ_le_holders (K N T : Nat) (st : State) (a : Nat) (h1 : HoldInv st) (h
   rw [sum2_add, sum2_sumN (fun g n i => cnt2 (gClaims a (st.sh.greg g)) n i),
     sum2_sumN (fun t n i => cnt2 ((st.th t).op.claims a (st.th t).loc) n i)]
   refine Nat.add_le_add (sumN_le (fun g _ => ?_)) (sumN_le (fun t _ => ?_))
-  · exact Nat.le_trans (sum2_cnt2 _ _ _) (gClaims_len _ a)
-  · exact Nat.le_trans (sum2_cnt2 _ _ _) (OpSt.claims_len _ _ a)
+  · exact sum2_cnt2 _ _ _
+  · exact sum2_cnt2 _ _ _
+
+/-- … hence at most the units of their holders -/
+theorem occ_le_holders (K N T : Nat) (st : State) (a : Nat) (h1 : HoldInv st) (h2 : HHoldInv st)
+    (hg : GregBelow N st.sh.greg) (ht : IdleBeyond T st) :
+    occ K st.sh.nodes a ≤ sumN (fun g => gU (st.sh.greg g) a) N + threadsU T st a := by
+  refine Nat.le_trans (occ_le_claims K N T st a h1 h2 hg ht) ?_
+  exact Nat.add_le_add (sumN_le (fun g _ => gClaims_len _ a)) (sumN_le (fun t _ => OpSt.claims_len _ _ a))
 
 /-! ## The theorem -/
 
@@ -620,6 +628,82 @@ theorem handle_value_counted (K N T : Nat) (hK : 0 < K) (cfg : Cfg) (progs : Nat
       sumN (fun h => ind ((run (State.initial cfg progs) sched).sh.hreg h = some a)) N :=
     @sumN_term (fun h => ind ((run (State.initial cfg progs) sched).sh.hreg h = some a)) N h hh
   have e : ind ((run (State.initial cfg progs) sched).sh.hreg h = some a) = 1 := by simp [ind, hreg]
+  omega
+
+theorem sumN_lt {f g : Nat → Nat} {K n : Nat} (h : ∀ m, m < K → f m ≤ g m) (hn : n < K) (hlt : f n + 1 ≤ g n) :
+    sumN f K + 1 ≤ sumN g K := by
+  induction K with
+  | zero => omega
+  | succ k ih =>
+    simp only [sumN]
+    by_cases e : n = k
+    · subst e
+      have := @sumN_le f g n (fun m hm => h m (by omega))
+      omega
+    · have := ih (fun m hm => h m (by omega)) (by omega)
+      have := h k (by omega)
+      omega
+
+/-- **the exact form**: count + claims of all holders ≥ containers + handles + guards + units in flight -/
+theorem count_plus_claims (K N T : Nat) (hK : 0 < K) (cfg : Cfg) (progs : Nat → List (String × Op))
+    (sched : List (Nat × Bool)) (he : EnvRun0 K N T (State.initial cfg progs) sched)
+    (hf : (run (State.initial cfg progs) sched).sh.fault = none) (a : Nat) (ha : a ≠ 0) :
+    (run (State.initial cfg progs) sched).sh.regs N a + threadsU T (run (State.initial cfg progs) sched) a ≤
+      ((run (State.initial cfg progs) sched).sh.heap a).cnt +
+        (sumN (fun g => (gClaims a ((run (State.initial cfg progs) sched).sh.greg g)).length) N +
+         sumN (fun t => (((run (State.initial cfg progs) sched).th t).op.claims a
+            ((run (State.initial cfg progs) sched).th t).loc).length) T) := by
+  have hl := C02_ledger_final K N T hK cfg progs sched he hf a ha
+  have h1 := holdInv_of_env cfg progs sched he hf
+  have h2 := HHoldInv.reachable ⟨cfg, progs, sched, rfl⟩ hf
+  have hg : GregBelow N (run (State.initial cfg progs) sched).sh.greg :=
+    gregBelow_run N sched (RegRun.of_env he) (fun _ _ => rfl)
+  have ht : IdleBeyond T (run (State.initial cfg progs) sched) :=
+    idleBeyond_run sched he (fun _ _ => rfl)
+  have hocc := occ_le_claims K N T _ a h1 h2 hg ht
+  simp only [pot] at hl
+  omega
+
+/-- **a guard that owns its reference** (no debt: the ninth and later guards of a thread, guards
+    from the fallback path) keeps the value alive -/
+theorem owned_guard_counted (K N T : Nat) (hK : 0 < K) (cfg : Cfg) (progs : Nat → List (String × Op))
+    (sched : List (Nat × Bool)) (he : EnvRun0 K N T (State.initial cfg progs) sched)
+    (hf : (run (State.initial cfg progs) sched).sh.fault = none) (a : Nat) (ha : a ≠ 0)
+    (g : Nat) (hg : g < N) (gd : Guard) (hreg : (run (State.initial cfg progs) sched).sh.greg g = some gd)
+    (hp : gd.ptr = a) (hd : gd.debt = none) :
+    1 ≤ ((run (State.initial cfg progs) sched).sh.heap a).cnt := by
+  have h := count_plus_claims K N T hK cfg progs sched he hf a ha
+  have hG : sumN (fun g => (gClaims a ((run (State.initial cfg progs) sched).sh.greg g)).length) N + 1 ≤
+      sumN (fun g => gU ((run (State.initial cfg progs) sched).sh.greg g) a) N := by
+    refine sumN_lt (fun m _ => gClaims_len _ a) hg ?_
+    simp [hreg, gClaims, Guard.claims, hd, gU, u, hp]
+  have hT : sumN (fun t => (((run (State.initial cfg progs) sched).th t).op.claims a
+        ((run (State.initial cfg progs) sched).th t).loc).length) T ≤
+      threadsU T (run (State.initial cfg progs) sched) a :=
+    sumN_le (fun t _ => OpSt.claims_len _ _ a)
+  simp only [Shared.regs, regs] at h
+  omega
+
+/-- **the writer's own reference**: while a writer walks the debt list for the value `old` it has
+    replaced (`swap`/`store`, before the release), that value is alive -/
+theorem replaced_value_counted_during_walk (K N T : Nat) (hK : 0 < K) (cfg : Cfg) (progs : Nat → List (String × Op))
+    (sched : List (Nat × Bool)) (he : EnvRun0 K N T (State.initial cfg progs) sched)
+    (hf : (run (State.initial cfg progs) sched).sh.fault = none) (old : Nat) (ha : old ≠ 0)
+    (t : Nat) (ht : t < T) (c out : Nat) (isStore : Bool) (pp : PP)
+    (hop : ((run (State.initial cfg progs) sched).th t).op = .swapPay c out old isStore pp) :
+    1 ≤ ((run (State.initial cfg progs) sched).sh.heap old).cnt := by
+  have h := count_plus_claims K N T hK cfg progs sched he hf old ha
+  have hG : sumN (fun g => (gClaims old ((run (State.initial cfg progs) sched).sh.greg g)).length) N ≤
+      sumN (fun g => gU ((run (State.initial cfg progs) sched).sh.greg g) old) N :=
+    sumN_le (fun g _ => gClaims_len _ old)
+  have hT : sumN (fun t => (((run (State.initial cfg progs) sched).th t).op.claims old
+        ((run (State.initial cfg progs) sched).th t).loc).length) T + 1 ≤
+      threadsU T (run (State.initial cfg progs) sched) old := by
+    refine sumN_lt (fun m _ => OpSt.claims_len _ _ old) ht ?_
+    have := PP.claims_len old pp ((run (State.initial cfg progs) sched).th t).loc old
+    simp only [hop, OpSt.claims, uOp, u, ↓reduceIte]
+    omega
+  simp only [Shared.regs, regs] at h
   omega
 
 /-- non-vacuity: the one-thread execution that creates a value satisfies the hypotheses, its handle
